@@ -279,7 +279,7 @@ def codeR (dia : Dialect) (code : Str) : Prop := (Tk.data code).ok dia = true
 /-- `es` are the save frames (one level: no frames inside), for some presentation of every value -/
 def FramesRel (o : Parser.Opts) : List WContainer → List Elem → Prop
   | [], es => es = []
-  | k :: r, es => ∃ code loops its es', k = .mk code [] loops ∧ LoopsRel o loops its ∧ es = .frame code its :: es' ∧ FramesRel o r es'
+  | k :: r, es => ∃ code loops its es', k = .mk code [] loops ∧ LoopsRel o loops its ∧ es = .frame code (its.map Elem.plain) :: es' ∧ FramesRel o r es'
 
 /-- `b` is the data block, for some presentation of every value: frames first, then the items -/
 def BlockRel (o : Parser.Opts) (k : WContainer) (b : Block) : Prop :=
@@ -328,7 +328,7 @@ theorem frame_chunks (o : Parser.Opts) (hun : o.unfold = true) (hpr : o.prem = t
     (out : Str) (c' : Ctx) (hdepth : c.depth = 1) (hd : o.dia = diaOf c) (hsv : c.separateValues = true) (hcode : codeR o.dia code)
     (hR : ∀ l ∈ loops, loopR o.dia o.normKey l) (h : writeContainer (.mk code [] loops) c = .ok (out, c')) :
     c'.lastColumn = 0 ∧ KeepL c c' ∧
-    ∃ its cs, LoopsRel o loops its ∧ out = renderChunks cs ∧ toks cs = elemToks (.frame code its) ∧ Mach o.dia (wOk o.dia) cs (AS o.dia) := by
+    ∃ its cs, LoopsRel o loops its ∧ out = renderChunks cs ∧ toks cs = elemToks (.frame code (its.map Elem.plain)) ∧ Mach o.dia (wOk o.dia) cs (AS o.dia) := by
   unfold writeContainer at h
   split at h
   · cases h
@@ -351,7 +351,7 @@ theorem frame_chunks (o : Parser.Opts) (hun : o.unfold = true) (hpr : o.prem = t
     rw [renderChunks_append, renderChunks_append, ← hr]
     simp [hne, renderChunks, renderWs, WsAtom.render, Tk.chars, FRAME_HEAD, FRAME_END]
   · rw [toks_append, toks_append, ht]
-    simp [toks, Tk.spec, elemToks]
+    simp [toks, Tk.spec, elemToks, Spec.Grammar.elemsToks_plains]
   · exact (head_frame o.dia code hcode).append (hm.append ((tail_frame o.dia).weaken (fun _ _ h => h.1) (fun _ _ h => h)))
 
 theorem frames_chunks (o : Parser.Opts) (hun : o.unfold = true) (hpr : o.prem = true) : ∀ (fs : List WContainer) (c : Ctx)
@@ -374,7 +374,7 @@ theorem frames_chunks (o : Parser.Opts) (hun : o.unfold = true) (hpr : o.prem = 
     obtain ⟨hz1, hk1, its, cs1, hrel1, hr1, ht1, hm1⟩ := frame_chunks o hun hpr code loops c o1 c1 hdepth hd hsv hcode hloops hf
     obtain ⟨hz2, hk2, es, cs2, hrel2, hr2, ht2, hm2⟩ := ih c1 o2 c' (by rw [hk1.2.1, hdepth]) (hk1.dia hd) (by rw [hk1.1, hsv])
       (fun x hx => hR x (by simp [hx])) hrest
-    refine ⟨fun _ => hz2 hz1, hk1.trans hk2, .frame code its :: es, cs1 ++ cs2, ⟨code, loops, its, es, rfl, hrel1, rfl, hrel2⟩,
+    refine ⟨fun _ => hz2 hz1, hk1.trans hk2, .frame code (its.map Elem.plain) :: es, cs1 ++ cs2, ⟨code, loops, its, es, rfl, hrel1, rfl, hrel2⟩,
       by rw [renderChunks_append, hr1, hr2], by rw [toks_append, ht1, ht2]; simp [elemsToks],
       (hm1.weaken (fun _ _ h => h.1) (fun _ _ h => h)).append hm2⟩
 
